@@ -284,13 +284,18 @@ let run_xlsx (desc : string) (calls : string) : string =
   String.concat "##" [parts; shs; m; s; known; leg; dom]
 
 (* ---------------------------------------------------------------- xls *)
-(* desc tokens: SH x<name> | OT <typ> x<hexdata> (a quiet record of the current group / tail) |
+(* desc tokens: SH x<name> | BF x<hexdata> (body of the sheet's BOF; default: a BIFF8 worksheet BOF) |
+   OT <typ> x<hexdata> (a record of the current group / tail) |
+   SB x<hexbof> <recs> (a nested substream of the current group / tail: BOF, the records
+   recs = - | typ:x<hex>,typ:x<hex>…, EOF) |
    MC r0,c0,r1,c1/… (closes a group; "-" = empty list) | AF <typ> x<hexdata> (after EOF) *)
 let parse_dims_list (s : string) : dims list =
   if s = "-" then [] else
   List.map (fun d -> match String.split_on_char ',' d with
       | [a; b; c; e] -> ((nn a, nn b), (nn c, nn e)) | _ -> failwith "dims") (String.split_on_char '/' s)
 
+let default_bof : BinNums.coq_N list =
+  List.map n_of_int [0x00; 0x06; 0x10; 0x00; 0xBB; 0x0D; 0xCC; 0x07; 0; 0; 0; 0; 0x06; 0x03; 0; 0]
 let parse_xls (desc : string) : xls_sheet_e list =
   let toks = Array.of_list (List.filter (fun s -> s <> "") (String.split_on_char ' ' desc)) in
   let n = Array.length toks in
@@ -298,16 +303,23 @@ let parse_xls (desc : string) : xls_sheet_e list =
   let next () = let t = toks.(!i) in incr i; t in
   let sheets = ref [] in
   let cur = ref None in   (* name, groups(rev), pending others(rev), after(rev) *)
+  let bofb = ref default_bof in
   let flush () = match !cur with
     | None -> ()
     | Some (name, groups, pending, after) ->
-      sheets := { xs_name = name; xs_groups = List.rev groups; xs_tail = List.rev pending;
-                  xs_after_eof = List.rev after } :: !sheets; cur := None in
+      sheets := { xs_name = name; xs_bof = !bofb; xs_groups = List.rev groups; xs_tail = List.rev pending;
+                  xs_after_eof = List.rev after } :: !sheets; cur := None; bofb := default_bof in
   while !i < n do
     match next () with
     | "SH" -> flush (); cur := Some (xs (next ()), [], [], [])
+    | "BF" -> bofb := xs (next ())
     | "OT" -> let t = nn (next ()) in let d = xs (next ()) in
-      (match !cur with Some (a, g, p, af) -> cur := Some (a, g, (t, d) :: p, af) | None -> failwith "no sheet")
+      (match !cur with Some (a, g, p, af) -> cur := Some (a, g, XRec (t, d) :: p, af) | None -> failwith "no sheet")
+    | "SB" -> let b = xs (next ()) in let rs = next () in
+      let recs = if rs = "-" then [] else
+          List.map (fun r -> match String.split_on_char ':' r with
+              | [t; d] -> (nn t, xs d) | _ -> failwith "sub record") (String.split_on_char ',' rs) in
+      (match !cur with Some (a, g, p, af) -> cur := Some (a, g, XSub (b, recs) :: p, af) | None -> failwith "no sheet")
     | "MC" -> let ds = parse_dims_list (next ()) in
       (match !cur with Some (a, g, p, af) -> cur := Some (a, (List.rev p, ds) :: g, [], af) | None -> failwith "no sheet")
     | "AF" -> let t = nn (next ()) in let d = xs (next ()) in
